@@ -293,6 +293,17 @@ func (ex *Exec) readVar(st *State, obj types.Object) *Val {
 		return v
 	}
 	if e, ok := ex.eng.constVars[obj]; ok {
+		if _, isCall := e.(*ast.CallExpr); isCall {
+			// a sentinel error created once at package initialisation: a fixed non-nil value
+			name := ex.eng.smt.named("sentinel_"+obj.Pkg().Name()+"_"+obj.Name(), "Int")
+			if !ex.eng.refAxDone[name] {
+				ex.eng.refAxDone[name] = true
+				ex.eng.smt.addAx(name, "(and (< 0 "+name+") (< "+name+" "+ex.eng.alloc0()+"))")
+			}
+			v := &Val{Sh: ex.eng.sh.shapeOf(obj.Type()), T: obj.Type(), S: name}
+			ex.init[obj] = v
+			return v
+		}
 		if tv, ok := ex.eng.constVarInfo[obj].Types[e]; ok && tv.Value != nil {
 			ex.assumption("package variable " + obj.Pkg().Name() + "." + obj.Name() + " is treated as the constant it is initialised with (never assigned in non-test code)")
 			v := ex.constVal(tv.Value, obj.Type())
